@@ -292,6 +292,17 @@ class CallGraph:
                 e = Edge(f, sub, g, kind, lock)
                 lst.append(e)
                 self.inc.setdefault(g.ref, []).append(e)
+        # reading `self.<name>` where <name> is a property / cached_property of the hierarchy runs that getter
+        c0 = class_of(f)
+        if c0 is not None:
+            for sub in body_nodes:
+                if isinstance(sub, ast.Attribute) and isinstance(sub.ctx, ast.Load) and isinstance(sub.value, ast.Name) \
+                        and sub.value.id in ("self", "cls"):
+                    for g in self._self_call(f, sub.attr):
+                        if any(unparse(d).split(".")[-1] in ("property", "cached_property") for d in g.node.decorator_list):
+                            e = Edge(f, None, g, "call", lexically_locked(f, sub, self.locks) if self.locks else None)
+                            lst.append(e)
+                            self.inc.setdefault(g.ref, []).append(e)
         # nested functions are reachable from their definer (closures returned / registered as callbacks)
         for ch in f.children.values():
             e = Edge(f, None, ch, "call", None)
@@ -354,6 +365,29 @@ def _root_name(e) -> Optional[str]:
     return e.id if isinstance(e, ast.Name) else None
 
 
+def _alias_of_attr(fa, stmt_or_node, base):
+    """`memo = cls._memo; memo[k] = v`: the attribute expression a local container name is an alias of (all its
+    definitions are plain attribute loads on self / cls), else None"""
+    if not (isinstance(base, ast.Name) and base.id in fa.rd.locals and base.id not in fa.f.params):
+        return None
+    node = None
+    for n in fa.cfg.nodes:
+        if n.ast is not None and (n.ast is stmt_or_node or any(x is stmt_or_node for x in walk_shallow(n.ast))):
+            node = n
+            break
+    if node is None:
+        return None
+    defs = [d for d in fa.rd.defs_of(node, base.id) if d is not fa.cfg.entry]
+    attrs = []
+    for d in defs:
+        if d.kind == "stmt" and isinstance(d.ast, ast.Assign) and isinstance(d.ast.value, ast.Attribute) \
+                and isinstance(d.ast.value.value, ast.Name) and d.ast.value.value.id in ("self", "cls", "mcs"):
+            attrs.append(d.ast.value)
+        else:
+            return None
+    return attrs[0] if attrs else None
+
+
 def writes_in(f: FuncInfo, module_globals: Set[str]) -> List[Write]:
     """stores whose target is not a plain local: attribute stores, subscript stores / mutator calls on attributes of
     non-local objects and on module globals, setattr/delattr, `global` rebinding"""
@@ -370,8 +404,11 @@ def writes_in(f: FuncInfo, module_globals: Set[str]) -> List[Write]:
             out.append(Write(f, t, unparse(t.value), t.attr, how, stmt))
         elif isinstance(t, ast.Subscript):
             base = t.value
+            alias = _alias_of_attr(fa, stmt, base)
             if isinstance(base, ast.Attribute):
                 out.append(Write(f, t, unparse(base.value), base.attr, "subscript", stmt))
+            elif alias is not None:
+                out.append(Write(f, t, unparse(alias.value), alias.attr, "subscript", stmt))
             elif isinstance(base, ast.Name) and (base.id in module_globals and base.id not in local_names
                                                  or base.id in declared_global):
                 out.append(Write(f, t, "<module>", base.id, "subscript", stmt))
@@ -402,8 +439,11 @@ def writes_in(f: FuncInfo, module_globals: Set[str]) -> List[Write]:
                                  "setattr", st))
             elif isinstance(st.func, ast.Attribute) and nm in MUTATORS:
                 base = st.func.value
+                alias = _alias_of_attr(fa, st, base)
                 if isinstance(base, ast.Attribute):
                     out.append(Write(f, st, unparse(base.value), base.attr, nm, st))
+                elif alias is not None:
+                    out.append(Write(f, st, unparse(alias.value), alias.attr, nm, st))
                 elif isinstance(base, ast.Name) and (base.id in module_globals and base.id not in local_names
                                                      or base.id in declared_global):
                     out.append(Write(f, st, "<module>", base.id, nm, st))
